@@ -3,6 +3,7 @@
 -/
 import Logg.Bridge.Registry
 import Logg.Lemmas.Assoc
+import Logg.Lemmas.QuoteRoundTrip
 
 namespace Logg.Props.C17
 open Logg Logg.Lemmas
@@ -137,6 +138,13 @@ theorem json_round_trip (r : Registry) (hc : Consistent r) (q : Bytes → Bytes)
   | some s =>
     simp [ht] at h; subst h
     simp [Registry.unmarshalJSON, hq, text_round_trip r hc l s ht]
+
+/-- (5') The JSON round trip with the quoting the code really uses (Go-syntax quoting written by
+    MarshalJSON, strconv.Unquote in UnmarshalJSON): the hypothesis of `json_round_trip` is a theorem
+    (Lemmas/QuoteRoundTrip: for every byte string). -/
+theorem json_round_trip_as_coded (r : Registry) (hc : Consistent r) (l : Int) (j : Bytes)
+    (h : r.marshalJSON (goQuote isPrintTable) l = some j) : r.unmarshalJSON goUnquote j = some l :=
+  json_round_trip r hc (goQuote isPrintTable) goUnquote (goUnquote_goQuote isPrintTable Lemmas.isPrintTable_safe) l j h
 
 /-- (6) What a successful registration establishes. -/
 theorem registered_answers_to_title (r r' : Registry) (v : Int) (t : Bytes) (p : RegPack)
